@@ -65,6 +65,13 @@ pub fn panic_key(p: &str) -> String {
             last_digit = false;
         }
     }
+    // drop the variable tail of slicing / char-boundary messages
+    let mut m = m;
+    for cut in ["; it is inside", " when slicing", " of `"] {
+        if let Some(p) = m.find(cut) {
+            m.truncate(p);
+        }
+    }
     let m: String = m.chars().take(60).collect();
     format!("{file}: {m}")
 }
